@@ -30,8 +30,14 @@ def removal_nests(fn):
         if isinstance(n, ast.Call) and txt(n.func) == "self.remove_edge" and len(n.args) == 2:
             loops = par.loops_of(n)
             if loops:
-                it0 = sc_.resolve(loops[0].iter)
+                it0 = loops[0].iter
                 bc = match(pat("combinations($x, 2)"), it0) or match(pat("itertools.combinations($x, 2)"), it0)
+                if bc is None and isinstance(it0, ast.Name):
+                    it0 = sc_.deref(it0)
+                    bc = match(pat("combinations($x, 2)"), it0) or match(pat("itertools.combinations($x, 2)"), it0)
+                    while bc is None and isinstance(it0, ast.Call) and txt(it0.func) in ("list", "tuple") and len(it0.args) == 1:
+                        it0 = it0.args[0]
+                        bc = match(pat("combinations($x, 2)"), it0) or match(pat("itertools.combinations($x, 2)"), it0)
                 tg = loops[0].target
                 if bc is not None and isinstance(tg, ast.Tuple) and len(tg.elts) == 2:
                     X_ = txt(bc["x"])
@@ -313,7 +319,8 @@ def run(ctx):
             o.undecided("EC.append in compute_scores not found", cs)
         else:
             a = apps[0]
-            b = match(pat("C[$c]"), a.args[0])
+            arg_r = scs.resolve(a.args[0], keep=["C"])
+            b = match(pat("C[$c]"), arg_r) or match(pat("sorted(C[$c])"), arg_r)
             lpa = pcs.loops_of(a)
             if b is None or not lpa:
                 o.undecided("score-0 append not recognised", cs, a)
@@ -397,6 +404,10 @@ def run(ctx):
             it_ = scs_.resolve(g_.iter)
             b_ = match(pat("range($n)"), it_) or match(pat("range(0, $n)"), it_)
             nv_ = txt(g_.target)
+            if b_ is None and match(pat("enumerate(C)"), it_) is not None and isinstance(g_.target, ast.Tuple) and len(g_.target.elts) == 2:
+                # any(n != c and edge <= other for n, other in enumerate(C)): every clique, with its index
+                b_ = {"n": ast.parse("len(C)", mode="eval").body}
+                nv_ = txt(g_.target.elts[0])
             conj = anys[0].args[0].elt.values if isinstance(anys[0].args[0].elt, ast.BoolOp) and isinstance(anys[0].args[0].elt.op, ast.And) else [anys[0].args[0].elt]
             conj = list(conj) + list(g_.ifs)
             if b_ is None:
